@@ -229,11 +229,14 @@ def gen_cluster(rng, ctx):
     pols = []
     for i in range(rng.choice([0, 1, 1, 2, 2, 3, 4])):
         types = rng.choice([[], [], ["Ingress"], ["Egress"], ["Ingress", "Egress"], ["Ingress", "Egress"]])
-        ing = [gen_rule(rng, ctx) for _ in range(rng.choice([0, 1, 1, 2]))] if types != ["Egress"] else []
-        eg = [gen_rule(rng, ctx) for _ in range(rng.choice([0, 1, 1, 2]))] if types != ["Ingress"] else []
+        # a rule section of a direction the policyTypes do not list is legal and ignored by Kubernetes (F8d repaired: no crash)
+        ing = [gen_rule(rng, ctx) for _ in range(rng.choice([0, 1, 1, 2]))] if (types != ["Egress"] or rng.random() < 0.4) else []
+        eg = [gen_rule(rng, ctx) for _ in range(rng.choice([0, 1, 1, 2]))] if (types != ["Ingress"] or rng.random() < 0.4) else []
         if not types and rng.random() < 0.5:
             eg = []
         ctx.dist("policyTypes:%s%s" % ("+".join(types) or "defaulted", "" if types else ("(egress rules)" if eg else "")))
+        if (types == ["Ingress"] and eg) or (types == ["Egress"] and ing):
+            ctx.dist("policy-with-ignored-rule-section")
         pols.append({"ns": rng.choice(nss)["name"], "name": "pol%d" % i, "sel": rng.choice(POD_SELS), "types": types,
                      "ingress": ing, "egress": eg})
     ctx.dist("cluster:%d-policies" % len(pols))
@@ -383,7 +386,6 @@ def run(ctx):
         "nameHash is read from the implementation (sha256/base32 not modelled); the full statement assumes it injective"]
     ctx.assumptions += ["pod IPs unique, every pod has an IP and a namespace object, numeric TCP/UDP ports, matchLabels selectors "
                         "only, IPv4, ipBlock excepts inside their block, prefix length >= 8",
-                        "policies with rules of a direction their policyTypes omit are not generated (they panic galaxy: F8)",
                         "flows cross FORWARD on the source pod's node and on the destination pod's node; host-originated "
                         "traffic (INPUT/OUTPUT hooks) is not evaluated"]
     ctx.theorems("C16", THEOREMS, REFUTED, deps=DEPS)
